@@ -10,7 +10,8 @@ RULE = ("fix_whitespace: corpus of edge texts + blank-line/indentation layouts f
         "backslashes, \\r \\f \\x1c) x widths 1..80 x indents 0..16 x offsets with offset < width, + every (text, width, offset, indent) the templates pass "
         "to the wrap/rst filters during those generations; textwrap contract and Metadata.doc on grammar texts; the character classes exhaustively over 0..127. "
         "End to end: a one-service API with a comment on every kind of element (message, field, enum, enum value, service, method), benign comments and one "
-        "hazardous comment at a time (triple quotes, trailing backslash, backslash escapes, final quotes; also on a request message shared by a unary, a "
+        "hazardous comment at a time (triple quotes, trailing backslash, backslash escapes, final quotes, curly braces; also on the result and metadata messages of a "
+        "long-running rpc and the response message of a paged rpc, whose comments go into the Returns: section of the method docstrings; also on a request message shared by a unary, a "
         "server-streaming, a client-streaming and a bidirectional rpc, whose comment is rendered into the four method docstrings of both clients); and the same API with every element documented "
         "only by a detached comment / only by a trailing one / by leading+trailing / leading+detached / two detached / trailing+detached (comment placement). "
         "A case is one input (text, or text+parameters, or comment set); distinct = distinct canonical JSON; non-trivial = non-blank text / changed by the "
@@ -134,6 +135,10 @@ def e2e_jobs(ctx):
                 keep.append((sig, tx, tgt))
             elif texts_index(sig, tx) == 0 and tgt == "stream_request":       # rendered into all four streaming kinds of method docstring
                 keep.append((sig, tx, tgt))
+            elif texts_index(sig, tx) == 0 and sig == D.BRACES and tgt in ("lro_result", "paged_response"):   # all brace forms in one comment
+                keep.append((sig, tx, tgt))
+            elif texts_index(sig, tx) == 0 and sig.endswith("triple_quote_in_comment") and tgt == "lro_result":
+                keep.append((sig, tx, tgt))
             elif texts_index(sig, tx) == 1 and tgt in ("method",) and sig.endswith("triple_quote_in_comment"):
                 keep.append((sig, tx, tgt))
         hz = keep
@@ -145,14 +150,10 @@ def e2e_jobs(ctx):
 
 
 def ads_jobs(ctx):
-    """The same API through the ads templates — only once findings/known_findings.json lists the ads request-comment defect (known: it is reported as
-    a known finding; fixed: these cases guard against its return). Until then the default run does not generate with the ads templates."""
-    from .. import main as M
-    if not any(f.get("signature") == D.ADS_SIGNATURE for f in M.load_findings()) and os.environ.get("GV_C20_ADS") != "1":
-        return []
+    """The same API through the ads templates (the request-comment defect found there is fixed upstream: these cases guard against its return)."""
     jobs = [("ads:benign", dict(D.BENIGN), None)]
     for tgt in ("request", "stream_request"):
-        for tx in ['Fetch by name, e.g. """things/1""" please.', "Path C:\\"] + ([] if ctx.tier == "quick" else ['five """"" quotes', "three \\\\\\"]):
+        for tx in ['Fetch by name, e.g. """things/1""" please.'] + ([] if ctx.tier == "quick" else ["Path C:\\", 'five """"" quotes', "three \\\\\\"]):
             jobs.append(("ads:hazard", {**D.BENIGN, tgt: tx}, (tgt, tx)))
     return jobs
 
